@@ -110,7 +110,7 @@ func bridgeEvent(chain string, b *Block, d *Deposit) bridgesync.Event {
 		Amount:             new(big.Int).Set(d.Amount),
 		Metadata:           append([]byte(nil), d.Metadata...),
 		DepositCount:       d.Count,
-		IsNativeToken:      d.OriginAddress == (common.Address{}),
+		IsNativeToken:      d.OriginAddress == (common.Address{}) || d.OriginAddress == GasToken,
 	}}
 }
 
